@@ -69,9 +69,28 @@ var selectors = []string{".banner", "#ad", "div.ads", ".track > a", "[data-ad]"}
 // and requests collide).
 func PickHosts(ch *core.Chooser) []string {
 	n := 3 + ch.Intn("hosts.n", 6)
+	// family theme: in a third of the runs all hosts belong to one
+	// registrable domain (a site, its sub-domains and sub-sub-domains), so
+	// that parent and child buckets, wildcard rules and per-site state meet
+	from := AllHosts
+	if ch.Intn("hosts.family", 3) == 2 {
+		base := []string{"example.org", "example.org", "example.com", "tracker.io", "example.net"}[ch.Intn("hosts.base", 5)]
+		var fam []string
+		for _, h := range AllHosts {
+			if h == base || strings.HasSuffix(h, "."+base) {
+				fam = append(fam, h)
+			}
+		}
+		if len(fam) >= 2 {
+			from = fam
+			if n > len(fam) {
+				n = len(fam)
+			}
+		}
+	}
 	// partial Fisher-Yates: a bounded number of draws whatever the values
 	// (a scripted replay may feed zeros for ever)
-	idx := make([]int, len(AllHosts))
+	idx := make([]int, len(from))
 	for i := range idx {
 		idx[i] = i
 	}
@@ -79,7 +98,7 @@ func PickHosts(ch *core.Chooser) []string {
 	for i := 0; i < n; i++ {
 		j := i + ch.Intn("hosts.pick", len(idx)-i)
 		idx[i], idx[j] = idx[j], idx[i]
-		hs = append(hs, AllHosts[idx[i]])
+		hs = append(hs, from[idx[i]])
 	}
 	// skew: a "hot" host takes a larger share of rules and queries, so that
 	// many rules pile up on one name
